@@ -24,11 +24,14 @@ Full statement / proved / missing
   width's range, also after the `int64(uint64)` wrap-around.
 * `C18_map_any_order`  — a Go map rebuilt from the entries of the sorted Hash, in whatever order `sortedMap` left
                          them, is the original map.
+* `C18_struct`         — flat structs: `px.New(T, InitHash(wrap s))` (named dispatch) and `px.New(T, attribute values…)`
+                         (positional dispatch) reflect back to the field values of `s`, for every field list with
+                         distinct attribute names whose fields are in both halves above.
 * missing (partial): `reflect` itself is the model's parameter (trusted base) — MakeSlice, MakeMap, SetMapIndex, Set,
-  truncating SetInt/SetUint, float32 conversion `r32` (assumed exact on float32 values: hypothesis `hr`); structs,
-  struct tags, embedding, object types (`C18_struct` of DESIGN.md is NOT stated: structs are only tested on the
-  implementation, ops `@refl`/`@reflraw`/`@obj`), interface{} holding containers, map keys other than integers / strings /
-  booleans, Runtime fall-back values.
+  truncating SetInt/SetUint, float32 conversion `r32` (assumed exact on float32 values: hypothesis `hr`); nested
+  structs, pointers to structs, embedding, struct tags other than `name`, registration in the implementation registry,
+  a bare interface{} field (Runtime fall-back value), interface{} holding containers, map keys other than integers /
+  strings / booleans — all of these are only tested on the implementation (ops `@refl`/`@reflraw`/`@obj`).
 -/
 namespace Pcore.Reflect
 
@@ -88,6 +91,28 @@ theorem C18_roundtrip_unsigned_wraps (r32 : Nat → Nat) (i : Int) (h : hasType 
 /-- a map rebuilt by `SetMapIndex` from any permutation of its (canonical) entries is the map -/
 theorem C18_map_any_order (l₁ l : List (GoVal × GoVal)) (hp : l₁.Perm l) (hs : sortedKeys l = true) : mapOf l₁ = l :=
   mapOf_perm_sorted hp hs
+
+/-- **structs** (flat: struct-free reflectable field types, no bare interface{} field): the object type derived from the
+    struct constructs — from the init hash of the wrapped struct through the named-argument dispatch, and from the
+    attribute values through the positional dispatch — an instance that converts back to the same field values.
+    `FieldOK` = flat ∧ well typed ∧ `RtOK false` ∧ `TaOK false` (a field goes through `wrapReflected`). -/
+theorem C18_struct (r32 : Nat → Nat) (hr : R32Exact r32) (fvs : List (Field × GoVal))
+    (hn : (fvs.map (·.1.name)).Nodup) (hf : ∀ fv ∈ fvs, FieldOK fv) :
+    newNamed r32 (fvs.map (·.1)) (initHash fvs) = some (fvs.map (·.2)) ∧ newPos r32 fvs = some (fvs.map (·.2)) :=
+  ⟨newNamed_ok r32 hr fvs hn hf, newPos_ok r32 hr fvs hf⟩
+
+/-- non-vacuity: `struct{A []uint8; B *int8 "name=>'f_b'"; C map[string]int; D *string}` with D nil (omitted from the
+    init hash) satisfies the hypotheses; a `[]byte` FIELD is an Array here (it does not pass through `wrap`'s arm) -/
+def sampleStruct : List (Field × GoVal) :=
+  [(⟨"a", .slice (.uint 8)⟩, .slice [.int 255]), (⟨"f_b", .ptr (.int 8)⟩, .ptr (.int (-1))),
+   (⟨"c", .map .string (.int 0)⟩, .map [(.str "k", .int 7)]), (⟨"d", .ptr .string⟩, .nil)]
+example : (sampleStruct.map (·.1.name)).Nodup := by decide
+example : ∀ fv ∈ sampleStruct, FieldOK fv := by
+  intro fv h
+  simp only [sampleStruct, List.mem_cons, List.not_mem_nil, or_false] at h
+  rcases h with rfl | rfl | rfl | rfl <;> exact ⟨by decide, by decide, by decide, by decide⟩
+example : initHash sampleStruct =
+    [(.str "a", .arr [.int 255]), (.str "c", .hsh [(.str "k", .int 7)]), (.str "f_b", .int (-1))] := by rfl
 
 /-! ### non-vacuity: nested values that satisfy every hypothesis -/
 
